@@ -1095,6 +1095,8 @@ func (vc *VC) unop(st *State, x *ssa.UnOp, guard string) {
 		}
 		a.T = x.X.Type()
 		vc.define(x, vc.load(st, a))
+		// values stored in the heap satisfy the invariant of their Go type
+		vc.assume(vc.ss().typeInv(x.Type(), vc.vals[x].S, 0))
 	case token.ARROW:
 		vc.recv(st, x, guard)
 	default:
